@@ -448,6 +448,12 @@ var reviewedExternalPkgs = map[string]string{
 	"time": "Now reads the clock; values are immutable", "unicode": "pure", "unicode/utf8": "pure", "fmt": "formatting only", "errors": "allocates",
 }
 
+// single functions of packages that are not reviewed as a whole
+var reviewedExternalFuncs = map[string]string{
+	"reflect.DeepEqual": "reads its arguments only",
+	"reflect.TypeOf":    "reads its argument only",
+}
+
 func (e *effectEngine) unreviewedExternals() []string {
 	seen := map[string]bool{}
 	for f := range e.region {
@@ -458,6 +464,9 @@ func (e *effectEngine) unreviewedExternals() []string {
 			}
 			p := g.Object().Pkg().Path()
 			if _, ok := reviewedExternalPkgs[p]; ok {
+				continue
+			}
+			if reviewedExternalFuncs[p+"."+g.Name()] != "" {
 				continue
 			}
 			if strings.HasSuffix(p, "pip-services3-commons-gox/errors") || strings.HasSuffix(p, "pip-services3-commons-gox/convert") {
@@ -647,15 +656,31 @@ func rulePureNoGo(c *Ctx) []*Obligation {
 		}
 	}
 	o.check(bad == "", "module#no-concurrency-primitives", "-", fmt.Sprintf("%d library packages: no go statement, channel, sync or atomic use", len(c.Lib)), bad+": the race argument (shared memory is only read) no longer covers the module")
-	// unsafe / reflect would invalidate the call-graph and effect analyses
+	// unsafe, or reflection beyond the read-only comparison helpers, would invalidate the call-graph and
+	// effect analyses: that is a broken assumption of the checker (undecided), not a property violation
 	bad2 := ""
 	for rel, p := range c.Lib {
 		for path := range p.Imports {
-			if path == "unsafe" || path == "reflect" {
-				bad2 = rel + " imports " + path
+			if path == "unsafe" {
+				bad2 = rel + " imports unsafe"
 			}
 		}
 	}
-	o.check(bad2 == "", "module#no-unsafe-reflect", "-", "no unsafe / reflect import (call graph and effect analysis assumptions hold)", bad2)
+	for _, fn := range c.AllLibFuncs() {
+		for _, ci := range allCalls(fn) {
+			g := ci.Common().StaticCallee()
+			if g == nil || g.Object() == nil || g.Object().Pkg() == nil || g.Object().Pkg().Path() != "reflect" {
+				continue
+			}
+			if reviewedExternalFuncs["reflect."+g.Name()] == "" {
+				bad2 = c.FuncKey(fn) + " calls reflect." + g.Name()
+			}
+		}
+	}
+	if bad2 == "" {
+		o.ok("module#no-unsafe-reflect", "-", "no unsafe import; reflection only through the read-only reflect.DeepEqual / reflect.TypeOf (call graph and effect analysis assumptions hold)")
+	} else {
+		o.undecided("module#no-unsafe-reflect", "-", bad2+": the call-graph and effect analyses assume no unsafe and no reflective calls or writes")
+	}
 	return o.list
 }
